@@ -34,6 +34,14 @@ func c02Bases(seed int64, thorough bool) []*e2eCase {
 	mk(true, true, 4, false, 2, []int64{6000})
 	mk(false, false, 4, false, 1, []int64{5000, 0})
 	mk(false, false, 4, false, 2, []int64{4000})
+	// overwrite onto existing files whose beginning matches the source: the resume hash exchange
+	// (prefix shorter than the source; previous file longer than the source)
+	mk(true, false, 4, false, 2, []int64{9000, 3000})
+	res[len(res)-1].Opts.Overwrite = true
+	res[len(res)-1].Pre = []e2eNode{{Rel: e2eName(0, 0), Size: 5000, Like: 1}, {Rel: e2eName(0, 1), Size: 4500, Like: 2}}
+	mk(false, true, 3, false, 2, []int64{7000})
+	res[len(res)-1].Opts.Overwrite = true
+	res[len(res)-1].Pre = []e2eNode{{Rel: e2eName(0, 0), Size: 7000, Like: 1, DivergeAt: 6000}}
 	if thorough {
 		mk(true, false, 1, false, 0, []int64{3000, 100})
 		mk(false, false, 2, false, 0, []int64{6000})
